@@ -13,5 +13,5 @@ trap 'git -C /repo checkout -- . ; git -C /repo clean -fdq -- atomica >/dev/null
 rc_all=0
 for p in $props; do
   echo "=== $id : check $p ($tier)"
-  (cd "$here" && ./check "$p" --tier "$tier" 2>&1 | grep -E "VIOLATION|KNOWN-FINDING|what:|broken:|^\[$p\]|INTERNAL" | head -12)
+  (cd "$here" && VERIF_EVIDENCE_SUFFIX=".seeded" ./check "$p" --tier "$tier" 2>&1 | grep -E "VIOLATION|KNOWN-FINDING|what:|broken:|^\[$p\]|INTERNAL" | head -12)
 done
